@@ -79,6 +79,7 @@ def factMethods : MethodTable := fun f ncalls st recv args =>
 structure World where
   kbs : List (String × KB) := []          -- "<lib>/<name>:<ver>"
   insts : List (String × Instance) := []
+  stored : List (String × KB) := []       -- handle ↦ what a load of that stream yields
   deriving Inhabited
 
 def World.kb (w : World) (k name ver : String) : KB := (assocGet k w.kbs).getD { name := name, version := ver }
@@ -148,13 +149,18 @@ def doOp (w : World) (op : Json) : P (World × Json) := do
   | "build" =>
     let ft := floatTexts op
     match fieldOpt op "rules" with
-    | none => pure (w, Json.mkObj [("skip", jstr "no AST")])
+    | none =>
+      -- a text the scenario gives no AST for (a rejected one): the knowledge base exists afterwards; what the
+      -- listener registered before the error is unreachable garbage, invisible after the F8 repair
+      let kb := w.kb kbKey kbName ver
+      pure ({ w with kbs := assocSet kbKey kb w.kbs }, Json.mkObj [("skip", jstr "no AST")])
     | some rj =>
       let rules ← (← arr rj).toList.mapM rule
       let (kb', errs) := (w.kb kbKey kbName ver).build ft rules
       let res := [("ok", Json.bool (errs == 0)), ("rules", rulesJ kb'.entries)] ++
         (if errs == 0 then [] else [("nerr", Json.num (errs : Nat))]) ++
-        (if fieldOpt op "wm" == some (.bool true) then [("wm", wmJ kb'.wm)] else [])
+        (if fieldOpt op "wm" == some (.bool true) then
+          [("wm", wmJ (kb'.wm.restrict (kb'.entries.filter (fun e => !e.deleted))))] else [])
       pure ({ w with kbs := assocSet kbKey kb' w.kbs }, Json.mkObj res)
   | "inst" =>
     match assocGet kbKey w.kbs with
@@ -166,7 +172,7 @@ def doOp (w : World) (op : Json) : P (World × Json) := do
           Json.mkObj [("ok", .bool true), ("rules", rulesJ inst.entries)])
   | "exec" =>
     match assocGet (get "inst") w.insts with
-    | none => throw "no such instance"
+    | none => pure (w, Json.mkObj [("skip", jstr "no such instance (its creation failed)")])
     | some inst =>
       let st ← store (← field op "facts")
       let maxC ← nat (← field op "max")
@@ -193,7 +199,7 @@ def doOp (w : World) (op : Json) : P (World × Json) := do
       pure ({ w with insts := assocSet (get "inst") r.inst w.insts }, res)
   | "fetch" =>
     match assocGet (get "inst") w.insts with
-    | none => throw "no such instance"
+    | none => pure (w, Json.mkObj [("skip", jstr "no such instance (its creation failed)")])
     | some inst =>
       let st ← store (← field op "facts")
       let retErr := fieldOpt op "retErr" == some (.bool true)
@@ -219,6 +225,47 @@ def doOp (w : World) (op : Json) : P (World × Json) := do
       let kb := w.kb kbKey kbName ver
       let kb' := if fieldOpt op "viaKb" == some (.bool true) then kb.remove (get "rule") else kb.removeLib (get "uuid") (get "rule")
       pure ({ w with kbs := assocSet kbKey kb' w.kbs }, Json.mkObj [("rules", rulesJ kb'.entries)])
+  | "ptrcheck" => pure (w, Json.mkObj [("skip", jstr "pointer graph of the implementation")])
+  | "concurrent" =>
+    -- the sequential meaning: every goroutine creates its own instance and executes it on its own facts
+    match assocGet kbKey w.kbs with
+    | none => pure (w, Json.mkObj [("skip", jstr "no knowledge base")])
+    | some kb =>
+      match kb.instantiate with
+      | none => pure (w, Json.mkObj [("skip", jstr "no instance")])
+      | some inst =>
+        let maxC ← nat (← field op "max")
+        let fl ← arr (← field op "factsList")
+        let rs ← fl.toList.mapM (fun fj => do
+          let st ← store fj
+          let cfg := mkCfg true genTab Gen.setNumberCells factMethods inst.wm
+          let r := execute { maxCycle := maxC } cfg inst st
+          pure (Json.mkObj [("out", outcomeJ r.outcome), ("store", storeJ r.store)]))
+        pure (w, Json.mkObj [("results", .arr rs.toArray)])
+  | "info" =>
+    if get "inst" != "" then
+      match assocGet (get "inst") w.insts with
+      | none => throw "no such instance"
+      | some inst => pure (w, Json.mkObj [("rules", rulesJ inst.entries)])
+    else
+      -- (the harness asks the library with GetKnowledgeBase, which creates a missing knowledge base)
+      let kb := w.kb kbKey kbName ver
+      pure ({ w with kbs := assocSet kbKey kb w.kbs }, Json.mkObj [("rules", rulesJ kb.entries)])
+  | "store" =>
+    let kb := w.kb kbKey kbName ver
+    -- GetKnowledgeBase creates the knowledge base when it does not exist yet
+    pure ({ w with kbs := assocSet kbKey kb w.kbs, stored := assocSet (get "as") kb.storeLoad w.stored },
+      Json.mkObj [("ok", .bool true)])
+  | "load" =>
+    if (fieldOpt op "cut").isSome then pure (w, Json.mkObj [("skip", jstr "byte-level: see Wire model")]) else
+    match assocGet (get "from") w.stored with
+    | none => throw "no such stored stream"
+    | some kb =>
+      let key := get "lib" ++ "/" ++ kb.name ++ ":" ++ kb.version
+      let overwrite := fieldOpt op "overwrite" == some (.bool true)
+      if !overwrite && (assocGet key w.kbs).isSome then pure (w, Json.mkObj [("ok", .bool false)])
+      else pure ({ w with kbs := assocSet key kb w.kbs },
+        Json.mkObj [("ok", .bool true), ("rules", rulesJ kb.entries), ("name", jstr kb.name), ("version", jstr kb.version)])
   | "binop" =>
     let l ← binopOperand (← field op "l")
     let r ← binopOperand (← field op "r")
